@@ -21,6 +21,7 @@ type Obligation struct {
 	Desc    string
 	Prefix  int
 	Goal    string
+	PC      string // path condition under which the claim is checked (Goal = PC and not claim)
 	Expect  string // "unsat" normally; "sat" for cover/vacuity queries
 	Witness []WitnessTerm
 	enc     *Enc
@@ -335,7 +336,7 @@ func (e *Enc) obligeAt(pc, kind, named, claim string, pos token.Pos, desc string
 	}
 	o := &Obligation{
 		Name: ShortKey(e.key) + "#" + name, Fn: e.key, Kind: kind, Pos: e.pos(pos), Desc: desc,
-		Prefix: len(e.asserts), Goal: sAnd(pc, sNot(claim)), Expect: "unsat", enc: e,
+		Prefix: len(e.asserts), Goal: sAnd(pc, sNot(claim)), PC: pc, Expect: "unsat", enc: e,
 	}
 	e.obls = append(e.obls, o)
 	return o
